@@ -9,18 +9,19 @@ from framework import VERIF, REPO, LeanLock
 sys.path.insert(0, os.path.join(VERIF, 'translate'))
 
 GEN_FILES = ('SimTables.lean', 'SimTblEnums.lean', 'SimHandlers.lean', 'CmioHandlers.lean', 'CDispatch.lean',
-             'SimRangeThms.lean', 'CmioRangeThms.lean')
+             'SimRangeThms.lean', 'CmioRangeThms.lean', 'CmioVsSimThms.lean')
 
 
 def regen(chk):
     """Returns True when all generated files were (re)written; records breaks otherwise."""
     import importlib
-    for name in ('py2lean', 'cdispatch', 'gen_range'):
+    for name in ('py2lean', 'cdispatch', 'gen_range', 'gen_cmiovs'):
         if name in sys.modules:
             importlib.reload(sys.modules[name])
     import py2lean
     import cdispatch
     import gen_range
+    import gen_cmiovs
     ok = True
     outputs = {}
     changed = []
@@ -48,6 +49,7 @@ def regen(chk):
     try:
         outputs['SimRangeThms.lean'] = gen_range.gen(REPO)
         outputs['CmioRangeThms.lean'] = gen_range.gen(REPO, cmio=True)
+        outputs['CmioVsSimThms.lean'] = gen_cmiovs.gen(REPO)
     except Exception as e:
         if ok:
             chk.breaks.append({'kind': 'translator', 'name': 'range theorem generator', 'detail': f'{type(e).__name__}: {e}'})
